@@ -147,11 +147,11 @@ pub struct Tag { pub name: String, pub target: usize, pub annotated: bool }
 pub enum Head { Branch(String), Detached(usize) }
 
 #[derive(Clone, Copy, Debug, PartialEq, Eq, Hash)]
-pub enum WorkTree { Clean, ModifiedTracked, StagedNew, Untracked, IgnoredOnly, ModifiedAndIgnored, DeletedTracked, StagedModification, UntrackedInSubdir, EmptyUntrackedDir, IgnoredDir, StagedDeletion, StagedRename, ModeChange, StagedThenReverted }
+pub enum WorkTree { Clean, ModifiedTracked, StagedNew, Untracked, IgnoredOnly, ModifiedAndIgnored, DeletedTracked, StagedModification, UntrackedInSubdir, EmptyUntrackedDir, IgnoredDir, StagedDeletion, StagedRename, ModeChange, StagedThenReverted, StagedModWorktreeAsHead, StagedNewThenDeleted }
 
 impl WorkTree {
     pub fn dirty(self) -> bool { !matches!(self, WorkTree::Clean | WorkTree::IgnoredOnly | WorkTree::EmptyUntrackedDir | WorkTree::IgnoredDir | WorkTree::StagedThenReverted) }
-    pub const ALL: [WorkTree; 15] = [WorkTree::Clean, WorkTree::ModifiedTracked, WorkTree::StagedNew, WorkTree::Untracked, WorkTree::IgnoredOnly, WorkTree::ModifiedAndIgnored, WorkTree::DeletedTracked, WorkTree::StagedModification, WorkTree::UntrackedInSubdir, WorkTree::EmptyUntrackedDir, WorkTree::IgnoredDir, WorkTree::StagedDeletion, WorkTree::StagedRename, WorkTree::ModeChange, WorkTree::StagedThenReverted];
+    pub const ALL: [WorkTree; 17] = [WorkTree::Clean, WorkTree::ModifiedTracked, WorkTree::StagedNew, WorkTree::Untracked, WorkTree::IgnoredOnly, WorkTree::ModifiedAndIgnored, WorkTree::DeletedTracked, WorkTree::StagedModification, WorkTree::UntrackedInSubdir, WorkTree::EmptyUntrackedDir, WorkTree::IgnoredDir, WorkTree::StagedDeletion, WorkTree::StagedRename, WorkTree::ModeChange, WorkTree::StagedThenReverted, WorkTree::StagedModWorktreeAsHead, WorkTree::StagedNewThenDeleted];
 }
 
 pub fn git_env() -> Vec<(String, String)> {
@@ -311,6 +311,10 @@ impl Repo {
             WorkTree::StagedDeletion => { git(&self.dir, &["rm", "-q", tracked_file], None); }
             WorkTree::StagedRename => { git(&self.dir, &["mv", tracked_file, "renamed"], None); }
             WorkTree::ModeChange => { use std::os::unix::fs::PermissionsExt; std::fs::set_permissions(p(tracked_file), std::fs::Permissions::from_mode(0o755)).unwrap(); }
+            // staged change whose work-tree copy has been put back to the committed content (status MM): index != HEAD
+            WorkTree::StagedModWorktreeAsHead => { let orig = std::fs::read(p(tracked_file)).unwrap(); std::fs::write(p(tracked_file), "changed").unwrap(); git(&self.dir, &["add", tracked_file], None); std::fs::write(p(tracked_file), orig).unwrap(); }
+            // new file staged, then deleted from the work tree (status AD): still a staged change
+            WorkTree::StagedNewThenDeleted => { std::fs::write(p("newfile2"), "x").unwrap(); git(&self.dir, &["add", "newfile2"], None); std::fs::remove_file(p("newfile2")).unwrap(); }
             // content changed and staged, then changed back in the work tree and re-staged: index == HEAD again
             WorkTree::StagedThenReverted => { let orig = std::fs::read(p(tracked_file)).unwrap(); std::fs::write(p(tracked_file), "changed").unwrap(); git(&self.dir, &["add", tracked_file], None); std::fs::write(p(tracked_file), orig).unwrap(); git(&self.dir, &["add", tracked_file], None); }
         }
